@@ -148,11 +148,14 @@ Proof.
   cbn [fst snd map]. reflexivity.
 Qed.
 
-Definition init_step (k : pt -> A) (start : pt) (st : sd_state A) (j : nat) : sd_state A :=
-  let v := sd_eval k (sd_vertex O start j) in mkSd (sd_simplex st ++ [v]) (sd_track O (sd_best st) v).
+Local Notation init_step := (sd_init_step O).
 
-Lemma sd_init_fold k big p0 start :
-  sd_init O k big p0 start = fold_left (init_step k start) (seq 0 (S (length start))) (mkSd [] (big, p0)).
+Lemma sd_init_fold k start :
+  sd_init O k start = fold_left (init_step k start) (seq 1 (length start)) (mkSd (map (tag k) [sd_vertex O start 0]) (tag k (sd_vertex O start 0))).
+Proof. reflexivity. Qed.
+
+Lemma old_sd_init_fold k big p0 start :
+  old_sd_init O k big p0 start = fold_left (init_step k start) (seq 0 (S (length start))) (mkSd [] (big, p0)).
 Proof. reflexivity. Qed.
 
 (* ---------------------------------------------------------------- rank invariance of one step *)
@@ -219,7 +222,7 @@ Proof. induction n as [|n IH]; intros s1 s2 R; cbn [sd_run]; auto. apply IH, ste
 (* init: the comparison with the literal must agree as well (e.g. every value of both oracles is below it) *)
 Lemma init_step_nf k start ps b j :
   init_step k start (mkSd (map (tag k) ps) b) j = mkSd (map (tag k) (ps ++ [sd_vertex O start j])) (sd_track O b (tag k (sd_vertex O start j))).
-Proof. unfold init_step. cbn [sd_simplex sd_best]. rewrite map_app. reflexivity. Qed.
+Proof. unfold sd_init_step. cbn [sd_simplex sd_best]. rewrite map_app. reflexivity. Qed.
 
 Lemma init_fold_rel start : forall js ps b1 b2, Rbest b1 b2 ->
   exists ps' b1' b2',
@@ -234,23 +237,20 @@ Proof.
     exists (sd_vertex O start j :: ps'), b1', b2'. rewrite E1, E2, <- !app_assoc. cbn [app length]. auto.
 Qed.
 
-Lemma init_rel big p0 start : (forall x, o_ltb O (f x) big = o_ltb O (g x) big) ->
-  Rstate (sd_init O f big p0 start) (sd_init O g big p0 start).
+Lemma init_rel start : Rstate (sd_init O f start) (sd_init O g start).
 Proof.
-  intro HB. rewrite !sd_init_fold.
-  destruct (@init_fold_rel start (seq 0 (S (length start))) [] (big, p0) (big, p0)) as (ps' & b1' & b2' & E1 & E2 & R' & L).
-  { split; cbn [fst snd]; auto. }
-  assert (Rstate (mkSd (map (tag f) ([] ++ ps')) b1') (mkSd (map (tag g) ([] ++ ps')) b2')) as G.
-  { exists ps'. cbn [sd_simplex sd_best app]. split; [|auto]. intro Z. subst ps'. rewrite seq_length in L. discriminate. }
-  rewrite <- E1, <- E2 in G. exact G.
+  rewrite !sd_init_fold.
+  destruct (@init_fold_rel start (seq 1 (length start)) [sd_vertex O start 0] (tag f (sd_vertex O start 0)) (tag g (sd_vertex O start 0)))
+    as (ps' & b1' & b2' & E1 & E2 & R' & L).
+  { split; cbn [tag fst snd]; auto. }
+  rewrite E1, E2. exists ([sd_vertex O start 0] ++ ps'). cbn [sd_simplex sd_best]. split; [discriminate|auto].
 Qed.
 
-Theorem sd_rank_invariant_generic big p0 start n :
-  (forall x, o_ltb O (f x) big = o_ltb O (g x) big) ->
-  map snd (sd_simplex (sd_run O f n (sd_init O f big p0 start))) = map snd (sd_simplex (sd_run O g n (sd_init O g big p0 start))) /\
-  snd (sd_best (sd_run O f n (sd_init O f big p0 start))) = snd (sd_best (sd_run O g n (sd_init O g big p0 start))).
+Theorem sd_rank_invariant_generic start n :
+  map snd (sd_simplex (sd_run O f n (sd_init O f start))) = map snd (sd_simplex (sd_run O g n (sd_init O g start))) /\
+  snd (sd_best (sd_run O f n (sd_init O f start))) = snd (sd_best (sd_run O g n (sd_init O g start))).
 Proof.
-  intro HB. destruct (run_rel n (init_rel big p0 start HB)) as (ps & _ & E1 & E2 & R & _).
+  destruct (run_rel n (init_rel start)) as (ps & _ & E1 & E2 & R & _).
   rewrite E1, E2, !payload_tag. split; [reflexivity|exact R].
 Qed.
 
@@ -302,9 +302,15 @@ Proof.
     exists (sd_vertex O start j :: ps'), b'. rewrite E, <- app_assoc. cbn [app length]. auto.
 Qed.
 
-Lemma init_vcons f big p0 start : vcons f (sd_init O f big p0 start).
+Lemma init_vcons f start : vcons f (sd_init O f start).
 Proof.
-  rewrite sd_init_fold. destruct (@init_fold_vcons f start (seq 0 (S (length start))) [] (big, p0)) as (ps' & b' & E & L).
+  rewrite sd_init_fold. destruct (@init_fold_vcons f start (seq 1 (length start)) [sd_vertex O start 0] (tag f (sd_vertex O start 0))) as (ps' & b' & E & L).
+  rewrite E. exists ([sd_vertex O start 0] ++ ps'). cbn [sd_simplex]. split; [discriminate|reflexivity].
+Qed.
+
+Lemma old_init_vcons f big p0 start : vcons f (old_sd_init O f big p0 start).
+Proof.
+  rewrite old_sd_init_fold. destruct (@init_fold_vcons f start (seq 0 (S (length start))) [] (big, p0)) as (ps' & b' & E & L).
   assert (vcons f (mkSd (map (tag f) ([] ++ ps')) b')) as G.
   { exists ps'. cbn [sd_simplex app]. split; [|auto]. intro Z. subst ps'. rewrite seq_length in L. discriminate. }
   rewrite <- E in G. exact G.
@@ -316,21 +322,16 @@ Lemma init_fold_best f start : forall js st,
 Proof.
   induction js as [|j js IH]; intros st [B|(j' & I & L)]; cbn [fold_left]; auto.
   - destruct I.
-  - apply IH. left. unfold init_step. cbn [sd_best]. apply track_bcons, B.
-  - apply IH. unfold init_step. cbn [sd_best]. change (sd_eval f) with (tag f).
+  - apply IH. left. unfold sd_init_step. cbn [sd_best]. apply track_bcons, B.
+  - apply IH. unfold sd_init_step. cbn [sd_best]. change (sd_eval f) with (tag f).
     unfold sd_track. cbn [tag fst snd].
     destruct (o_ltb O (f (sd_vertex O start j)) (fst (sd_best st))) eqn:D.
     + left. reflexivity.
     + destruct I as [->|I]; [congruence|]. right. exists j'. auto.
 Qed.
 
-Lemma init_bcons f big p0 start :
-  (exists j, (j <= length start)%nat /\ o_ltb O (f (sd_vertex O start j)) big = true) ->
-  bcons f (sd_best (sd_init O f big p0 start)).
-Proof.
-  intros (j & L & T). rewrite sd_init_fold. apply init_fold_best. right. exists j. split; [|exact T].
-  apply in_seq. lia.
-Qed.
+Lemma init_bcons f start : bcons f (sd_best (sd_init O f start)).
+Proof. rewrite sd_init_fold. apply init_fold_best. left. reflexivity. Qed.
 
 (* every value at or above the literal: m_best is never assigned *)
 Section Literal.
@@ -365,24 +366,24 @@ Qed.
 Lemma init_fold_literal start : forall js st, sd_best st = b -> sd_best (fold_left (init_step f start) js st) = b.
 Proof.
   induction js as [|j js IH]; intros st EB; cbn [fold_left]; auto.
-  apply IH. unfold init_step. cbn [sd_best]. rewrite EB. apply track_literal.
+  apply IH. unfold sd_init_step. cbn [sd_best]. rewrite EB. apply track_literal.
 Qed.
 End Literal.
 
+(* about the init BEFORE the repair d2acfe00 (regression witness) *)
 Theorem sd_literal_reported (f : pt -> A) big p0 start n :
   (forall x, o_ltb O (f x) big = false) ->
-  sd_best (sd_run O f n (sd_init O f big p0 start)) = (big, p0).
+  sd_best (sd_run O f n (old_sd_init O f big p0 start)) = (big, p0).
 Proof.
-  intro HB. apply run_literal; [exact HB|apply init_vcons|].
-  rewrite sd_init_fold. apply init_fold_literal; auto.
+  intro HB. apply run_literal; [exact HB|apply old_init_vcons|].
+  rewrite old_sd_init_fold. apply init_fold_literal; auto.
 Qed.
 
-Theorem sd_reports_objective_generic (f : pt -> A) big p0 start n :
-  (exists j, (j <= length start)%nat /\ o_ltb O (f (sd_vertex O start j)) big = true) ->
-  let st := sd_run O f n (sd_init O f big p0 start) in
+Theorem sd_reports_objective_generic (f : pt -> A) start n :
+  let st := sd_run O f n (sd_init O f start) in
   fst (sd_best st) = f (snd (sd_best st)) /\ Forall (fun v => fst v = f (snd v)) (sd_simplex st).
 Proof.
-  intro E. cbv zeta. destruct (@run_cons f n (sd_init O f big p0 start) (init_vcons f big p0 start) (init_bcons f big p0 start E)) as [(ps & _ & V) B].
+  cbv zeta. destruct (@run_cons f n (sd_init O f start) (init_vcons f start) (init_bcons f start)) as [(ps & _ & V) B].
   split; [exact B|]. rewrite V. apply Forall_forall. intros v I. apply in_map_iff in I. destruct I as (p & <- & _). reflexivity.
 Qed.
 
@@ -486,46 +487,37 @@ Proof.
   intros H x y. cbn [o_ltb C11Proofs.QO]. apply eq_iff_eq_true. rewrite !Qltb_spec. apply H.
 Qed.
 
-Theorem sd_rank_invariant_lemma (f g : pt -> Q) big p0 start n :
-  (forall x y, f x < f y <-> g x < g y) -> (forall x, f x < big <-> g x < big) ->
-  map snd (sd_simplex (sd_run QO f n (sd_init QO f big p0 start))) = map snd (sd_simplex (sd_run QO g n (sd_init QO g big p0 start))) /\
-  snd (sd_best (sd_run QO f n (sd_init QO f big p0 start))) = snd (sd_best (sd_run QO g n (sd_init QO g big p0 start))).
-Proof.
-  intros H HB. apply sd_rank_invariant_generic; [apply order_oeq, H|].
-  intro x. cbn [o_ltb C11Proofs.QO]. apply eq_iff_eq_true. rewrite !Qltb_spec. apply HB.
-Qed.
+Theorem sd_rank_invariant_lemma (f g : pt -> Q) start n :
+  (forall x y, f x < f y <-> g x < g y) ->
+  map snd (sd_simplex (sd_run QO f n (sd_init QO f start))) = map snd (sd_simplex (sd_run QO g n (sd_init QO g start))) /\
+  snd (sd_best (sd_run QO f n (sd_init QO f start))) = snd (sd_best (sd_run QO g n (sd_init QO g start))).
+Proof. intros H. apply sd_rank_invariant_generic, order_oeq, H. Qed.
 
-Theorem sd_rank_invariant_rescaling (phi : Q -> Q) (f : pt -> Q) big p0 start n :
-  (forall a b, a < b -> phi a < phi b) -> (forall a b, a == b -> phi a == phi b) -> (forall x, f x < big <-> phi (f x) < big) ->
+Theorem sd_rank_invariant_rescaling (phi : Q -> Q) (f : pt -> Q) start n :
+  (forall a b, a < b -> phi a < phi b) -> (forall a b, a == b -> phi a == phi b) ->
   let g := fun x => phi (f x) in
-  map snd (sd_simplex (sd_run QO f n (sd_init QO f big p0 start))) = map snd (sd_simplex (sd_run QO g n (sd_init QO g big p0 start))) /\
-  snd (sd_best (sd_run QO f n (sd_init QO f big p0 start))) = snd (sd_best (sd_run QO g n (sd_init QO g big p0 start))).
-Proof.
-  intros Hi He HB g. apply sd_rank_invariant_generic; [apply incr_oeq; auto|].
-  intro x. unfold g. cbn [o_ltb C11Proofs.QO]. apply eq_iff_eq_true. rewrite !Qltb_spec. apply HB.
-Qed.
+  map snd (sd_simplex (sd_run QO f n (sd_init QO f start))) = map snd (sd_simplex (sd_run QO g n (sd_init QO g start))) /\
+  snd (sd_best (sd_run QO f n (sd_init QO f start))) = snd (sd_best (sd_run QO g n (sd_init QO g start))).
+Proof. intros Hi He g. apply sd_rank_invariant_generic, incr_oeq; auto. Qed.
 
-Theorem sd_reports_objective_lemma (f : pt -> Q) big p0 start n :
-  (exists j, (j <= length start)%nat /\ f (sd_vertex QO start j) < big) ->
-  let st := sd_run QO f n (sd_init QO f big p0 start) in
+Theorem sd_reports_objective_lemma (f : pt -> Q) start n :
+  let st := sd_run QO f n (sd_init QO f start) in
   fst (sd_best st) = f (snd (sd_best st)) /\ Forall (fun v => fst v = f (snd v)) (sd_simplex st).
-Proof.
-  intros (j & L & T). apply sd_reports_objective_generic. exists j. split; [exact L|].
-  cbn [o_ltb C11Proofs.QO]. apply Qltb_spec, T.
-Qed.
+Proof. apply sd_reports_objective_generic. Qed.
 
+(* regression witness: the init BEFORE the repair d2acfe00 *)
 Theorem sd_literal_reported_lemma (f : pt -> Q) big p0 start n :
-  (forall x, big <= f x) -> sd_best (sd_run QO f n (sd_init QO f big p0 start)) = (big, p0).
+  (forall x, big <= f x) -> sd_best (sd_run QO f n (old_sd_init QO f big p0 start)) = (big, p0).
 Proof.
   intro HB. apply sd_literal_reported. intro x. cbn [o_ltb C11Proofs.QO]. apply Qltb_false, HB.
 Qed.
 
-Lemma init_length (f : pt -> Q) big p0 start : length (sd_simplex (sd_init QO f big p0 start)) = S (length start).
+Lemma init_length (f : pt -> Q) start : length (sd_simplex (sd_init QO f start)) = S (length start).
 Proof.
   rewrite sd_init_fold.
-  assert (forall js st, length (sd_simplex (fold_left (init_step QO f start) js st)) = (length (sd_simplex st) + length js)%nat) as G.
+  assert (forall js st, length (sd_simplex (fold_left (sd_init_step QO f start) js st)) = (length (sd_simplex st) + length js)%nat) as G.
   { induction js as [|j js IH]; intro st; cbn [fold_left length]; [lia|].
-    rewrite IH. unfold init_step. cbn [sd_simplex]. rewrite app_length. cbn [length]. lia. }
+    rewrite IH. unfold sd_init_step. cbn [sd_simplex]. rewrite app_length. cbn [length]. lia. }
   rewrite G, seq_length. reflexivity.
 Qed.
 
